@@ -90,7 +90,7 @@ func (v *Vue) evalConditionExpr(ctx VueContext, expr string) (bool, error) {
 // filterChain parses expr as "value | filter | filter(args)" and reports whether it is one: at
 // least one segment, all of them calls of registered functions.
 func (v *Vue) filterChain(expr string) (pipeExpr, bool) {
-	if helpers.IsComplexExpr(expr) || !strings.Contains(helpers.MaskQuoted(expr), "|") {
+	if !strings.Contains(helpers.MaskQuoted(expr), "|") || (helpers.IsComplexExpr(expr) && splitDotPipe(expr) == nil) {
 		return pipeExpr{}, false
 	}
 	pipe := parsePipeExpr(expr)
@@ -98,8 +98,11 @@ func (v *Vue) filterChain(expr string) (pipeExpr, bool) {
 		return pipeExpr{}, false
 	}
 	for _, seg := range pipe.segments {
-		if seg.typ != segmentFilter {
-			return pipeExpr{}, false
+		if seg.typ == segmentExpr {
+			if nameThePipedValue(seg.expr) == seg.expr {
+				return pipeExpr{}, false
+			}
+			continue // an expression over the piped value: n | . > 3
 		}
 		if _, registered := v.funcMap[seg.name]; !registered {
 			return pipeExpr{}, false
